@@ -18,7 +18,7 @@
       the IMPLEMENTATION's scripts. *)
 From Coq Require Import List NArith Bool.
 From MWF Require Import Base.Str Gen.HeaderData Sched.Header Sched.Launcher Sched.Readers Sched.C15Proofs
-  Sched.LsfProofs.
+  Sched.LsfProofs Sched.FluxProofs.
 Import ListNotations.
 
 (** ** The monitor holds of the model, for every case (Slurm, Local) *)
@@ -149,6 +149,71 @@ Theorem C15_total_lsf : forall c, H15 c = true -> c_be c = Lsf ->
 Proof. exact C15_total_lsf_lemma. Qed.
 Print Assumptions C15_total_lsf.
 
+(** ** Flux (extended).  The Flux header is informational ("#INFO (key) value";
+    the resources themselves are passed to the Flux API at submission): the node
+    line must name the effective node count (default 1), the walltime line the
+    walltime in seconds ([flux_seconds]: integer minutes, or [[H:]M:]S).  Every
+    launcher piece becomes "flux run -n P -N N -c C [-g G] [-o opts]" reading back
+    to the requested counts ([want_flux]). *)
+Theorem C15_monitor_flux : forall c, c_be c = Flux -> C15_ok c (run_model c) = true.
+Proof. exact C15_ok_flux. Qed.
+Print Assumptions C15_monitor_flux.
+
+Theorem C15_flux_scheduled : forall c,
+  H15 c = true -> c_be c = Flux -> schedulable (c_step c) = true ->
+  (rejected c = true /\ run_model c = OExc Diag) \/
+  (rejected c = false /\ exists sc, run_model c = OScript sc /\ sc_sched sc = true
+     /\ flux_header_reads_p c (sc_text sc) /\ flux_launcher_reads c (c_cmd c) (sc_text sc)
+     /\ match st_restart (c_step c), sc_restart sc with
+        | [], None => True
+        | _ :: _, Some (_, rt) => flux_header_reads_p c rt /\ flux_launcher_reads c (c_restart c) rt
+        | _, _ => False
+        end).
+Proof. exact C15_flux_sched_lemma. Qed.
+Print Assumptions C15_flux_scheduled.
+
+Theorem C15_header_flux : forall c text, flux_header_reads_p c text ->
+  first_line text = shebang_of (c_batch c) /\
+  read_flux_info text (s "nodes") = effective_flux_nodes (c_batch c) (c_step c) /\
+  flux_walltime_ok (effective (c_batch c) (c_step c) RWalltime) (read_flux_info text (s "walltime")) = true.
+Proof. intros c text H. exact H. Qed.
+Print Assumptions C15_header_flux.
+
+Theorem C15_launcher_flux : forall c ps text, flux_launcher_reads c ps text ->
+  containsb launcher_var (script_body text) = false /\
+  match_body (launch_ok_flux (c_batch c) (c_step c)) (ps ++ [PText [nl]]) (script_body text) = true.
+Proof. intros c ps text H. exact H. Qed.
+Print Assumptions C15_launcher_flux.
+
+(** ** C15_total: for every case of the domain, whatever the back-end, script
+    generation never ends in an internal error (KeyError, TypeError, ...);
+    the known findings are excluded where they apply. *)
+Theorem C15_total : forall c, H15 c = true ->
+  (schedulable (c_step c) = true ->
+     K6_batch_gpus c = false /\ K6_lsf_header c = false /\ K6_lsf_nodes_only c = false) ->
+  run_model c <> OExc Internal.
+Proof.
+  intros c H K. destruct (c_be c) eqn:BE.
+  - apply C15_total_lemma; auto. left. split; auto. intros SC. apply K; auto.
+  - apply C15_total_lsf_lemma; auto. intros SC. destruct (K SC) as [_ [A B]]. auto.
+  - apply C15_total_flux_lemma; auto.
+  - apply C15_total_lemma; auto.
+Qed.
+Print Assumptions C15_total.
+
+(** the monitor, all back-ends *)
+Theorem C15_monitor : forall c,
+  K6_batch_gpus c = false -> K6_lsf_header c = false -> K6_lsf_nodes_only c = false ->
+  C15_ok c (run_model c) = true.
+Proof.
+  intros c A B C. destruct (c_be c) eqn:BE.
+  - apply C15_ok_slurm; auto.
+  - apply C15_ok_lsf; auto.
+  - apply C15_ok_flux; auto.
+  - apply C15_ok_local; auto.
+Qed.
+Print Assumptions C15_monitor.
+
 (** ** The scanner was written against these regex texts (T-data) *)
 Theorem C15_regex_texts : regex_text_matches = true.
 Proof. vm_compute; reflexivity. Qed.
@@ -239,4 +304,22 @@ Example ex_lsf_in_domain :
   H15 ex_lsf = true /\ K6_lsf_header ex_lsf = false /\ K6_lsf_nodes_only ex_lsf = false
   /\ schedulable (c_step ex_lsf) = true /\ rejected ex_lsf = false
   /\ read_bsub (match run_model ex_lsf with OScript sc => sc_text sc | _ => [] end) RWalltime = Some (s "01:30").
+Proof. vm_compute. repeat split; reflexivity. Qed.
+
+Definition ex_flux : case :=
+  {| c_be := Flux;
+     c_batch := {| b_kw := [(s "host", VStr (s "h")); (s "bank", VStr (s "b")); (s "queue", VStr (s "q"));
+                            (s "nodes", VInt 3)];
+                   b_args := [(s "mpi", s "spectrum")] |};
+     c_broker := s "0.49.0";
+     c_step := {| st_name := s "s1"; st_desc := s "d";
+                  st_cmd := s "$(LAUNCHER)[2p] a.out; $(LAUNCHER) b.out"; st_restart := [];
+                  st_res := [(s "nodes", VInt 2); (s "procs", VInt 8); (s "walltime", VStr (s "01:00:30"));
+                             (s "gpus", VInt 1)] |};
+     c_cmd := [PTok (TP (s "2")); PText (s " a.out; "); PBare; PText (s " b.out")];
+     c_restart := [] |}.
+Example ex_flux_in_domain :
+  H15 ex_flux = true /\ schedulable (c_step ex_flux) = true /\ rejected ex_flux = false
+  /\ read_flux_info (match run_model ex_flux with OScript sc => sc_text sc | _ => [] end) (s "walltime")
+     = Some (s "3630.0").
 Proof. vm_compute. repeat split; reflexivity. Qed.
